@@ -17,6 +17,16 @@
     op 7 (stop, once per case): the callee goes away -- [AStop true] for the rtc servers (the future of
               [serve()] is dropped); for the remote functions the provider is dropped: the scheduler below
               lets the provider task notice that ([AStop false]) whenever it is at its [select!].
+    flag 256 (not together with 64 / 128, clonable clients only): the call future is PARKED after its first
+              poll -- the caller keeps it but awaits other calls -- until op 8 (resume) or a drop.  The
+              request travels, the call is served and answered as usual; the schedule below merely does not
+              let the call future complete ([AReturn]) while it is parked, and the request channel cannot end
+              while a parked future holds its clone of the client.
+    op 9 L   (RFn, 1 <= L <= 64, before the stop op): [RFnProvider::set_max_concurrency(L)].  The provider
+              keeps a semaphore per limit setting; the task of an invocation takes a permit of the semaphore
+              in force when its request was received before it calls the function, and returns it when the
+              function returns.  In the schedule below a task that has not started runs only when fewer than
+              that many tasks of its setting are executing (waiters are served in order).
     The target is the counter object of the harness: state N, get = (s + x) mod P,
     add: s' = (3 s + x + 1) mod P returning s', take = (5 s + x) mod P. *)
 From Remoc Require Import Lib.Base Rtc.Lin Rtc.Server.
@@ -57,7 +67,40 @@ Record rstate := mkR {
   r_open : list (N * N);          (* gates that were opened: (call id, gate) *)
   r_ids : list (option N);        (* call op number -> call id (None: the call was not issued) *)
   r_stop : bool;                  (* the stop op was used *)
+  r_parked : list N;              (* calls whose future is parked *)
+  r_lims : list N;                (* RFn: the concurrency limits that were set, newest first *)
+  r_tgen : list (N * N);          (* RFn: call id -> number of limit settings before it was made *)
 }.
+
+#[global] Instance eta_rstate : Settable _ := settable! mkR <r_sys; r_open; r_ids; r_stop; r_parked; r_lims; r_tgen>.
+
+(** what the schedule of a big step depends on besides the state *)
+Record env := mkE {
+  e_cap : N; e_local : bool; e_open : list (N * N); e_gone : bool; e_rfn : bool;
+  e_parked : list N; e_lims : list N; e_tgen : list (N * N);
+}.
+
+Definition mem (i : N) (l : list N) : bool := existsb (N.eqb i) l.
+Definition remove_n (i : N) (l : list N) : list N := filter (fun j => negb (j =? i)) l.
+
+Fixpoint find_idxi {A} (f : N -> A -> bool) (l : list A) (k : N) : option N :=
+  match l with
+  | [] => None
+  | x :: t => if f k x then Some k else find_idxi f t (k + 1)
+  end.
+
+(** the limit setting a call belongs to (counted from the oldest, 0 = the default), and its limit *)
+Definition gen_of (en : env) (i : N) : N :=
+  match find (fun p => fst p =? i) (e_tgen en) with Some p => snd p | None => 0 end.
+Definition limit_of (en : env) (g : N) : N :=
+  if g =? 0 then 32 else nth (N.to_nat (g - 1)) (rev (e_lims en)) 32.
+Definition executing (h : handler N arg N) : bool := match h_ph h with PNew => false | _ => true end.
+(** a permit of its semaphore is free for the task of an invocation that has not started *)
+Definition permit (en : env) (s : csys) (h : handler N arg N) : bool :=
+  negb (e_rfn en) || executing h ||
+  let g := gen_of en (q_cell (h_req h)) in
+  (len (filter (fun t => executing t && (gen_of en (q_cell (h_req t)) =? g)) (tasks s)) <? limit_of en g).
+
 
 Definition gate_open (op : list (N * N)) (i g : N) : bool :=
   existsb (fun p => (fst p =? i) && (snd p =? g)) op.
@@ -119,9 +162,15 @@ Definition can_send (cap : N) (local : bool) (s : csys) (cl : N) : bool :=
 
 (** [gone]: the provider of the remote function has been dropped; its task notices that when it is at
     its [select!] (first branch, biased) *)
-Definition next_action (cap : N) (local : bool) (s : csys) (op : list (N * N)) (gone : bool) : option (action arg) :=
+Definition next_action (en : env) (s : csys) : option (action arg) :=
+  let cap := e_cap en in
+  let local := e_local en in
+  let op := e_open en in
+  let gone := e_gone en in
   (* the oldest call future that still holds its request; later ones wait behind it *)
-  match match find_idx (fun c => match cr_st c with CInit => true | _ => false end) (calls s) 0 with
+  (* (a parked call future that still holds its request learnt at its first poll that the request cannot be
+     sent; the caller sees that when it looks at the future again) *)
+  match match find_idxi (fun i c => negb (mem i (e_parked en)) && match cr_st c with CInit => true | _ => false end) (calls s) 0 with
         | Some i => match get_call s i with
                     | Some c => if can_send cap local s (cr_client c) then Some i else None
                     | None => None
@@ -138,7 +187,7 @@ Definition next_action (cap : N) (local : bool) (s : csys) (op : list (N * N)) (
   | false =>
   if gone && loop_idle s then Some (AStop false) else
   if loop_can s op then Some ALoop else
-  match find_idx (h_can s op) (tasks s) 0 with
+  match find_idx (fun h => h_can s op h && permit en s h) (tasks s) 0 with
   | Some k => Some (ATask k)
   | None =>
   match sends s with
@@ -151,22 +200,25 @@ Definition next_action (cap : N) (local : bool) (s : csys) (op : list (N * N)) (
       | None => None
       end
   | None =>
-  match find_idx (fun c => match cr_st c, cr_slot c with
+  match find_idxi (fun i c => negb (mem i (e_parked en)) &&
+                           match cr_st c, cr_slot c with
                            | CWait, SGot _ | CWait, SDead => true
                            | CWait, _ => cut s
                            | _, _ => false end) (calls s) 0 with
   | Some i => Some (AReturn i)
   | None =>
-      if all_dead (clients s) && negb (qclosed s) then Some ACloseReqs else None
+      (* a parked call future holds a clone of its client: the request channel does not end *)
+      if all_dead (clients s) && negb (qclosed s) && match e_parked en with [] => true | _ => false end
+      then Some ACloseReqs else None
   end end end end end end end.
 
-Fixpoint settle (fuel : nat) (lim cap : N) (local : bool) (s : csys) (op : list (N * N)) (gone : bool) : option csys :=
+Fixpoint settle (fuel : nat) (lim : N) (en : env) (s : csys) : option csys :=
   match fuel with
   | O => None
   | S f =>
-      match next_action cap local s op gone with
+      match next_action en s with
       | None => Some s
-      | Some a => settle f lim cap local (cstep lim s a) op gone
+      | Some a => settle f lim en (cstep lim s a)
       end
   end.
 
@@ -241,6 +293,8 @@ Definition eff_meth (flav m : N) : N :=
     oversized requests/replies (and gate 1 for [RFnMut]) mean nothing there *)
 Definition mask_flags (flav : N) (local : bool) (d : N) : N :=
   let d := if local then N.clearbit (N.clearbit (N.clearbit (N.clearbit d 2) 3) 4) 5 else d in
+  (* a call future can be parked (bit 8) only if the client can be cloned and the future is not dropped at once *)
+  let d := if (flav =? 0) || (flav =? 7) || (flav =? 8) || N.testbit d 6 || N.testbit d 7 then N.clearbit d 8 else d in
   if 5 <? flav then
     let d := N.clearbit (N.clearbit d 4) 5 in
     if flav =? 7 then N.clearbit d 0 else d
@@ -274,23 +328,26 @@ Definition do_op (flav lim : N) (local : bool) (r : rstate) (o a b c d : N) : op
       if ok then
         let i := len (calls s) in
         (* the first poll of the call future hands the request over, unless it has to wait for a slot *)
+        let fails := cut s || qclosed s || negb (client_live s cl) in
         let acts := [AInvoke cl call]
                     ++ (if N.testbit d 7 then [ADropCall i]
-                        else if can_send (cap_of flav) local s cl then [ASend i] else [])
+                        else if can_send (cap_of flav) local s cl && negb (N.testbit d 8 && fails) then [ASend i] else [])
                     ++ (if N.testbit d 6 then [ADropCall i] else [])
                     ++ (match c_kind call with KVal => [ADropClient cl] | _ => [] end) in
-        Some (0, mkR s (r_open r) (r_ids r ++ [Some i]) (r_stop r), acts)
-      else Some (1, mkR s (r_open r) (r_ids r ++ [None]) (r_stop r), [])
+        Some (0, r <| r_ids := r_ids r ++ [Some i] |>
+                   <| r_parked := if N.testbit d 8 then i :: r_parked r else r_parked r |>
+                   <| r_tgen := (i, len (r_lims r)) :: r_tgen r |>, acts)
+      else Some (1, r <| r_ids := r_ids r ++ [None] |>, [])
   | 1 =>
       match nth_id (r_ids r) a with
-      | Some i => if (b =? 1) || (b =? 2) then Some (0, mkR s ((i, b) :: r_open r) (r_ids r) (r_stop r), []) else Some (1, r, [])
+      | Some i => if (b =? 1) || (b =? 2) then Some (0, r <| r_open := (i, b) :: r_open r |>, []) else Some (1, r, [])
       | None => Some (1, r, [])
       end
   | 2 =>
       match nth_id (r_ids r) a with
       | Some i =>
           match get_call s i with
-          | Some cr => if outstanding cr then Some (0, r, [ADropCall i]) else Some (1, r, [])
+          | Some cr => if outstanding cr then Some (0, r <| r_parked := remove_n i (r_parked r) |>, [ADropCall i]) else Some (1, r, [])
           | None => Some (1, r, [])
           end
       | None => Some (1, r, [])
@@ -303,9 +360,22 @@ Definition do_op (flav lim : N) (local : bool) (r : rstate) (o a b c d : N) : op
   | 5 | 6 => Some (0, r, [])
   | 7 =>
       if r_stop r then Some (1, r, [])
-      else Some (0, mkR s (r_open r) (r_ids r) true, if 5 <? flav then [] else [AStop true])
+      else Some (0, r <| r_stop := true |>, if 5 <? flav then [] else [AStop true])
+  | 8 =>
+      match nth_id (r_ids r) a with
+      | Some i => if mem i (r_parked r) then Some (0, r <| r_parked := remove_n i (r_parked r) |>, []) else Some (1, r, [])
+      | None => Some (1, r, [])
+      end
+  | 9 =>
+      if (flav =? 6) && negb (r_stop r) && (1 <=? a) && (a <=? 64) then
+        (* [send_if_modified]: setting the limit it already has changes nothing *)
+        if a =? hd 32 (r_lims r) then Some (0, r, []) else Some (0, r <| r_lims := a :: r_lims r |>, [])
+      else Some (1, r, [])
   | _ => None
   end.
+
+Definition env_of (flav : N) (local : bool) (r : rstate) : env :=
+  mkE (cap_of flav) local (r_open r) (r_stop r && (5 <? flav)) (flav =? 6) (r_parked r) (r_lims r) (r_tgen r).
 
 Fixpoint run_ops (flav lim : N) (local : bool) (r : rstate) (ops : list N) : list N :=
   match ops with
@@ -316,9 +386,9 @@ Fixpoint run_ops (flav lim : N) (local : bool) (r : rstate) (ops : list N) : lis
           let s0 := r_sys r1 in
           let s1 := fold_left (cstep lim) acts s0 in
           (* the provider of a remote function is gone once the stop op was used *)
-          match settle (200 + 40 * length (calls s1)) lim (cap_of flav) local s1 (r_open r1) (r_stop r1 && (5 <? flav)) with
+          match settle (200 + 40 * length (calls s1)) lim (env_of flav local r1) s1 with
           | None => [97]
-          | Some s2 => report (5 <? flav) acc s0 s2 ++ run_ops flav lim local (mkR s2 (r_open r1) (r_ids r1) (r_stop r1)) rest
+          | Some s2 => report (5 <? flav) acc s0 s2 ++ run_ops flav lim local (r1 <| r_sys := s2 |>) rest
           end
       end
   | [] => []
@@ -379,6 +449,6 @@ Definition run_rtc (inp : list N) : list N :=
         let rfn := 5 <? flav in
         let sp := if flav =? 6 then true else if rfn then false else negb (spawn =? 0) in
         let s := init (flavour_of flav) sp (if rfn then PIgnore else policy_of pol) (negb rfn) (N.to_nat ncl) 0 in
-        run_ops flav lim (cmode =? 2) (mkR s [] [] false) ops
+        run_ops flav lim (cmode =? 2) (mkR s [] [] false [] [] []) ops
   | _ => [98]
   end.
